@@ -141,7 +141,7 @@ pub fn gen_op(cur: &mut Cursor, bias: Bias) -> Op {
         Bias::Mixed => match sel {
             0..=79 => Op::PushLegal(k, via),
             80..=99 => Op::PushSpecial(k, via),
-            100..=119 => Op::PushIllegal(cur.u16(), cur.below(3) as u8),
+            100..=119 => Op::PushIllegal(cur.u16(), cur.below(5) as u8),
             120..=127 => Op::PushNull(cur.below(3) as u8),
             128..=143 => Op::PushGarbage(alphabet_string(cur, MOVE_ALPHABET, 7), cur.below(2) as u8),
             144..=159 => {
@@ -452,7 +452,33 @@ impl ChainSim {
                     tries += 1;
                 }
                 let m = wf[idx % wf.len()];
-                match via % 3 {
+                match via % 5 {
+                    3 => {
+                        // coordinate text of a move that only the king's safety forbids, through the SAN entry point
+                        let s = self.cur().pseudo_legal();
+                        let ill: Vec<RefMove> = s.into_iter().filter(|x| !l.contains(x)).collect();
+                        if let Some(x) = self.select(&ill, (*k & 0xff) as u8) {
+                            let r = self.chain.push(San(x.uci()));
+                            self.expect_refused(r, &format!("the coordinate text {:?} of a move that leaves the king attacked, pushed as SAN", x.uci()), &before, before_len)?;
+                            stats.label("refused_king_left_attacked");
+                        }
+                    }
+                    4 => {
+                        // abbreviated capture text naming any file and the file of the en-passant mark (or any two files)
+                        let cur = self.cur().clone();
+                        let a = (*k % 8) as i8;
+                        let b = match cur.ep {
+                            Some(e) if *k & 0x100 == 0 => file_of(e),
+                            _ => ((*k >> 9) % 8) as i8,
+                        };
+                        let matching = l.iter().filter(|x| x.man.1 == Pc::P && file_of(x.from) == a && file_of(x.to) == b && a != b).count();
+                        if matching == 0 {
+                            let text = format!("{}{}", (b'a' + a as u8) as char, (b'a' + b as u8) as char);
+                            let r = self.chain.push(San(text.clone()));
+                            self.expect_refused(r, &format!("the two-file text {:?} which no legal pawn capture matches", text), &before, before_len)?;
+                            stats.label("refused_two_file_text");
+                        }
+                    }
                     0 => {
                         let r = self.chain.push(m);
                         self.expect_refused(r, &format!("the illegal move {}", mv_desc(&m)), &before, before_len)?;
